@@ -136,6 +136,18 @@ func seqProfile(prop, tier string) *SeqProfile {
 	if prop == "C03" || prop == "C04" || prop == "C10" {
 		p.Design = append(p.Design, searchDesign)
 	}
+	ops := func(cfg string, min int, note string) DesignRun {
+		return DesignRun{Module: "KlevSegOps.tla", Cfg: cfg, Workers: 16, Timeout: time.Duration(min) * time.Minute, Note: note}
+	}
+	switch prop {
+	case "C15":
+		p.Design = []DesignRun{
+			ops(tierS(tier, "ops_trim_q.cfg", "ops_trim_t.cfg"), 30, "KlevSegOps: FindBy* transcriptions + DeleteMulti loop against FindBy*OK / TrimApplied in every state, time index on"),
+			ops(tierS(tier, "ops_trim_notimes_q.cfg", "ops_trim_notimes_t.cfg"), 30, "the same without a time index (FindByAge falls back to NextOffset)")}
+	case "C16":
+		p.Design = []DesignRun{ops(tierS(tier, "ops_compact_q.cfg", "ops_compact_t.cfg"), 40,
+			"KlevSegOps: FindUpdates / FindDeletes transcriptions + DeleteMulti loop against CompactUpdatesOK / CompactDeletesOK in every state (keys n,a,b, tombstones, times {1,2} in any order)")}
+	}
 	return p
 }
 
@@ -284,6 +296,12 @@ func seqProfile0(prop, tier string) *SeqProfile {
 		g.TimeMode = "mono"
 		ploss := prop == "C06"
 		var design []DesignRun
+		if ploss {
+			design = []DesignRun{
+				{Module: "KlevFSDur.tla", Cfg: tierS(tier, "fsdur_q.cfg", "fsdur_t.cfg"), Workers: 16, Timeout: 40 * time.Minute,
+					Note: "KlevFSDur.tla: KlevFS + durable lengths (fold of fsync/create/rename/remove over the plans); PowerLoss1 = every plan prefix x every cut of every file between its durable and written length recovers to a prefix of what was written containing everything below the acknowledged offset"},
+				{Module: "KlevFSDur.tla", Cfg: "fsdur_auto_q.cfg", Workers: 16, Timeout: 20 * time.Minute, Note: "the same with AutoSync (every Publish acknowledges)"}}
+		}
 		if !ploss {
 			design = []DesignRun{{Module: "KlevFS.tla", Cfg: tierS(tier, "fs_q.cfg", "fs_t.cfg"), Workers: 16, Timeout: 30 * time.Minute,
 				Note: "KlevFS.tla: operations compiled to plans of file-system primitives; Crash1/Crash2 = every plan prefix and torn class of every enabled operation (and of the recovery plan itself) recovers to an allowed state; KF-C05-1 exempted by its signature"}}
